@@ -58,9 +58,9 @@ def schema_history_worker(job):
             if k == "std":
                 objs[op[1]] = load_schema_version(op[2])
             elif k == "file":
-                objs[op[1]] = load_schema(os.path.join(data, op[2]))
+                objs[op[1]] = load_schema(os.path.join(data, op[2]), schema_namespace=(op[3] if len(op) > 3 else ""))
             elif k == "xml":
-                objs[op[1]] = from_string(op[2], schema_format=".xml")
+                objs[op[1]] = from_string(op[2], schema_format=".xml", schema_namespace=(op[3] if len(op) > 3 else ""))
             elif k == "unmerged_of":
                 src = load_schema(os.path.join(data, op[2])).get_as_xml_string(save_merged=False)
                 objs[op[1]] = from_string(src, schema_format=".xml")
@@ -206,17 +206,17 @@ def _fragment(rng, i, voc, M):
     return xml, [t["long"] for t in s["tags"] if "inLibrary" in t["attrs"]]
 
 
-def _lib_cases(rng, M, voc, lib_names, n_other):
+def _lib_cases(rng, M, voc, lib_names, n_other, ns=""):
     """Spellings of the (future) library tags in every form, plus some standard spellings."""
     import copy
     keep = set(lib_names)
     sub = copy.copy(voc)
     sub.names = [n for n in voc.names if n in keep]
-    cases = M.structured_cases(rng, sub, "", None)
+    cases = M.structured_cases(rng, sub, ns, None)
     rest = [n for n in voc.names if n not in keep]
     sub2 = copy.copy(voc)
     sub2.names = rng.sample(rest, min(len(rest), n_other))
-    cases += M.structured_cases(rng, sub2, "", 1)
+    cases += M.structured_cases(rng, sub2, ns, 1)
     return cases
 
 
@@ -227,9 +227,9 @@ def schema_jobs(rng, tier, M, vocs, scratch):
     scen = []
     v83, v82 = vocs["8_3_0"], vocs["8_2_0"]
 
-    def mk(sid, ops, steps):
+    def mk(sid, ops, steps, ns=""):
         fresh = [op for op in ops if not (op[0] == "resolve" and op[2].startswith("pre"))]
-        scen.append({"id": sid, "ops": ops, "ops_fresh": fresh, "steps": steps})
+        scen.append({"id": sid, "ops": ops, "ops_fresh": fresh, "steps": steps, "ns": ns})
 
     # A1: a generated unmerged library derived from the already USED cached standard schema
     for i in range(3 if quick else 8):
@@ -256,30 +256,34 @@ def schema_jobs(rng, tier, M, vocs, scratch):
            [("std", "base", std), ("resolve", "base", "pre-base", texts), ("unmerged_of", "lib", A[key]["file"]),
             ("resolve", "lib", "lib", texts), ("resolve", "base", "post-base", texts)],
            {"pre-base": (stdv, None), "lib": (voc, cases), "post-base": (stdv, None)})
-    # B1: a further bundled library merged into a USED schema object
-    if True:
-        a, b = "testlib_2_0_0", "score_1_1_0"
-        extra = [t["long"] for t in A[b]["tags"] if "inLibrary" in t["attrs"]]
+    # B1: a further bundled library merged into a USED schema object -- plain and already namespaced
+    pairs = [c for c in M.mergeable_sets() if len(c) == 2]
+    for pre in ("", rng.choice(M.PREFIXES)):
+        a, b = ("testlib_2_0_0", "score_1_1_0") if (quick and not pre) else rng.choice(pairs)
+        ns = pre + ":" if pre else ""
+        extra = [t["long"] for t in X.schema_for_use(b, A)["tags"] if "inLibrary" in t["attrs"]]
         names = vocs[a].names + extra
         voc = M.Vocab(a + "+" + b, names, True)
-        cases = _lib_cases(rng, M, voc, rng.sample(extra, 50 if quick else 250), 60)
+        cases = _lib_cases(rng, M, voc, rng.sample(extra, min(len(extra), 50 if quick else 250)), 60, ns)
         texts = [c["text"] for c in cases]
-        mk(f"merge-{a}+{b}",
-           [("file", "a", A[a]["file"]), ("resolve", "a", "pre-a", texts), ("merge_file", "m", "a", A[b]["file"]),
-            ("resolve", "m", "merged", texts)],
-           {"pre-a": (vocs[a], None), "merged": (voc, cases)})
+        mk(f"merge-{pre}:{a}+{b}",
+           [("file", "a", A[a]["file"], pre), ("resolve", "a", "pre-a", texts),
+            ("merge_file", "m", "a", A[b]["file"]), ("resolve", "m", "merged", texts)],
+           {"pre-a": (vocs[a], None), "merged": (voc, cases)}, ns)
     # B2: a generated second library (merged file format) merged into a used, derived library object
     for i in range(3 if quick else 8):
         spec, names1 = M.gen_schema(rng, 300000 + i, std_voc=v83)
         voc1 = M.Vocab(spec[1], names1, True)
         xml2, extra = _fragment(rng, 300000 + i, voc1, M)
         voc2 = M.Vocab(spec[1] + "+frag", names1 + extra, True)
-        cases = _lib_cases(rng, M, voc2, extra + [n for n in names1 if "Lib-" in n], 40)
+        pre = rng.choice(["", ""] + M.PREFIXES)
+        ns = pre + ":" if pre else ""
+        cases = _lib_cases(rng, M, voc2, extra + [n for n in names1 if "Lib-" in n], 40, ns)
         texts = [c["text"] for c in cases]
-        mk(f"merge-gen{i}",
-           [("xml", "l1", spec[2]), ("resolve", "l1", "pre-l1", texts), ("merge_xml", "m", "l1", xml2),
+        mk(f"merge-gen{i}-{pre}",
+           [("xml", "l1", spec[2], pre), ("resolve", "l1", "pre-l1", texts), ("merge_xml", "m", "l1", xml2),
             ("resolve", "m", "merged", texts)],
-           {"pre-l1": (voc1, None), "merged": (voc2, cases)})
+           {"pre-l1": (voc1, None), "merged": (voc2, cases)}, ns)
     for s in scen:
         for key in ("ops", "ops_fresh"):
             s[key] = {"scratch": scratch, "ops": s[key]}
@@ -332,7 +336,7 @@ def run_schema_histories(res, rng, tier, M, vocs, scratch, exe):
                     dis += 1
                     break
             # (c) the model on the vocabulary the object has at this step
-            sessions.append((voc.names, "", texts, False))
+            sessions.append((voc.names, s.get("ns", ""), texts, False))
             smap.append((si, label))
     if exe is not None and sessions:
         for (si, label), (hdr, answers) in zip(smap, M.model_sessions(exe, sessions)):
